@@ -52,6 +52,14 @@ def nonblank(s):
     return "".join(ch for ch in s if ch not in " \t")
 
 
+def structure(line):
+    """the characters of a line that formatting has no business with: letters and structural punctuation"""
+    line = line.rstrip(" \t")
+    if line.endswith(";"):
+        line = line[:-1]          # an empty comment says nothing: dropping its semicolon is not a loss
+    return "".join(ch for ch in line if ch.isalpha() or ch in "@={}()[]|;*!\"")
+
+
 def is_subsequence(a, b):
     it = iter(b)
     return all(ch in it for ch in a)
@@ -96,6 +104,12 @@ def evaluate(f):
             k = next((i for i, (x, y) in enumerate(zip(e0, e1)) if x != y), min(len(e0), len(e1)))
             divs.append(("understood-content-changed", "entry %d understood as %s before, as %s after formatting" % (
                 k + 1, e0[k][:300] if k < len(e0) else None, e1[k][:300] if k < len(e1) else None)))
+        # independent of what the parser says it understood: formatting moves blanks and (with a display format in scope,
+        # which damaged inputs never have) re-renders numbers; letters and the punctuation that carries structure are never lost
+        for li, (a, b) in enumerate(zip(ol, fl)):
+            if not is_subsequence(structure(a), structure(b)):      # added characters (a closing quote) are not a loss
+                divs.append(("text-lost:structure", "line %d %r became %r: letters / structural punctuation %r became %r" % (li + 1, a, b, structure(a), structure(b))))
+                break
         errlines = {e["line"] for e in (f.parse0.get("errs") or [])}
         plines = {p["line"] for e in (f.parse0.get("entries") or []) for p in (e.get("postings") or [])}
         for li, (a, b) in enumerate(zip(ol, fl)):
